@@ -287,8 +287,11 @@ def main():
             if ncorr < 0:
                 U = prop.get_PropagationMatrix(ts)
             else:
-                U, _orders = prop.get_PropagationMatrix(
+                res = prop.get_PropagationMatrix(
                     ts, corrections=ncorr, exact=bool(s % 2))
+                # (the perturbative orders handed out along with the
+                # matrix are not part of the property)
+                U = res[0] if isinstance(res, tuple) else res
             worst = 0.0
             for i, t in enumerate(ts.data):
                 E = scipy.linalg.expm(K * (t - ta.data[0]))
